@@ -113,10 +113,11 @@ CLAIMED = {
             "original tree (a sample of exactly 0.0 was dropped) and was fixed. Writer (create_dobs_string): the cell written for a "
             "configuration on which the observable was measured is the number fluctuation + replica offset and the position counter "
             "advances correctly; the clause `never the marker 0` fails exactly when that number is 0 (sample == central value): recorded "
-            "known finding, inherent in the format.",
+            "known finding, inherent in the format. Covariance inputs: observable i receives column i of the stored gradient table "
+            "(the single column when only one is stored), for 2 and 3 observables and any number of covariance entries.",
             "DESIGN.md section 6 C12",
             "NOT decided: the XML assembly / parsing around these statements (_import_array, _import_rdata, _import_cdata, dict_to_xml), "
-            "several observables / chains in one table (alignment by the counters across rows), the pobs format, covariance inputs, the "
+            "several observables / chains in one table (alignment by the counters across rows), the pobs format, the "
             "replica-separator handling, text formatting accuracy of '%1.16e'."),
     "C13": ("symbolic execution of export_jackknife / import_jackknife (structured-matrix model of ones - (n-1) identity) + arithmetic lemmas",
             "Proof: export_jackknife returns [value, (n value - x_i)/(n-1)] for every i and rejects observables with more than one chain; "
